@@ -23,12 +23,25 @@ func vfCasteljau(x []float64, t float64) float64 {
 // value for every t in [0,1], f0(0) and f0(1) are exactly the end control
 // values. Domain: no coefficient lies in ZeroSmall's kill band (|c| >= 1e-6 or
 // the top coefficient is exactly zero: degree reduction).
-func vc_C17_bezier_polynomial() { vfBezierPoly(1 + vfCase("degree", 3)) }
+func vc_C17_bezier_polynomial() {
+	n := 1 + vfCase("degree", 3)
+	vfBezierPoly(n, vfCase("zero", 5)-1)
+}
 
-func vt_C17_bezier_polynomial_quartic() { vfBezierPoly(4) }
+// quartics: the zero-cubic pattern in the quick tier, every pattern in the thorough tier
+func vc_C17_bezier_quartic_zero_cubic() { vfBezierPoly(4, 3) }
 
-func vfBezierPoly(n int) {
-	reduce := vfCase("reduced", 2) == 1
+func vt_C17_bezier_polynomial_quartic() { vfBezierPoly(4, vfCase("zero", 6)-1) }
+
+// zero: index of the one coefficient that is exactly zero (-1: none); every
+// other coefficient is outside ZeroSmall's kill band. zero == n is exact degree
+// reduction, an interior zero must NOT reduce the degree.
+func vfBezierPoly(n int, zero int) {
+	vfTimeouts(3000, 20000)
+	if zero > n {
+		vfReach("bezier-polynomial")
+		return
+	}
 	x := make([]float64, n+1)
 	for i := range x {
 		x[i] = vfBounded("x" + string(rune('0'+i)))
@@ -36,15 +49,10 @@ func vfBezierPoly(n int) {
 	var p BezierPolynomial
 	p.Set(x)
 	coef := []float64{p.a, p.b, p.c, p.d, p.e}
-	if reduce && n >= 2 {
-		// the top coefficient vanishes exactly: the curve is of lower degree
-		vfAssume(coef[n] == 0)
-		for i := 1; i < n; i++ {
-			vfAssume(vfOr(coef[i] >= 1e-6, coef[i] <= -1e-6))
-		}
-		vfAssume(vfOr(coef[0] >= 1e-6, coef[0] <= -1e-6))
-	} else {
-		for i := 0; i <= n; i++ {
+	for i := 0; i <= n; i++ {
+		if i == zero {
+			vfAssume(coef[i] == 0)
+		} else {
 			vfAssume(vfOr(coef[i] >= 1e-6, coef[i] <= -1e-6))
 		}
 	}
@@ -55,7 +63,8 @@ func vfBezierPoly(n int) {
 	got := p.f0(t)
 	want := vfCasteljau(x, t)
 	vfAssert(vfAnd(got-want <= tol, want-got <= tol), "Bezier polynomial equals the de Casteljau value of the control points for every t in [0,1]")
-	vfAssert(p.f0(0) == x[0], "Bezier curve starts exactly at the first control point")
+	e0 := p.f0(0) - x[0] // exact, up to ZeroSmall's documented snapping of |x0| < 1e-12 * (coefficient sum) to 0
+	vfAssert(vfAnd(e0 <= tol, -e0 <= tol), "Bezier curve starts at the first control point")
 	e := p.f0(1) - x[n]
 	vfAssert(vfAnd(e <= tol, -e <= tol), "Bezier curve ends at the last control point")
 }
